@@ -24,6 +24,7 @@ func init() {
 				"R3.remote":      "slot operations refuse in remote mode before running the tool",
 				"R4.slots":       "slot-list parser guards and order",
 				"R4.bounds":      "bounds obligations of the slot operations",
+				"R5.frames":      "the framed writer both sides share puts the length prefix and then the whole payload on the wire",
 			},
 		},
 		Run: runC13,
@@ -33,6 +34,7 @@ func init() {
 func runC13(c *Ctx) {
 	w := c.w
 	tablesC13(c)
+	frameWriteRule(c, "R5.frames", yubiPkg)
 	client := w.NamedType(yubiPkg, "client")
 	server := w.NamedType(yubiPkg, "server")
 	if client == nil || server == nil {
@@ -420,11 +422,60 @@ func runC13(c *Ctx) {
 
 	// ---- R4 ----
 	if fn := w.methodOfNamed(server, "ListSlots"); fn != nil && fn.Blocks != nil {
-		f := w.Facts(fn)
+		// the parser: ListSlots itself, or the repository function it hands the tool's output to and whose result it
+		// returns
+		pf := fn
+		var pfSite *ssa.Call
+		hasAppend := func(g *ssa.Function) bool {
+			for _, call := range callsIn(g) {
+				if b, ok := call.Common().Value.(*ssa.Builtin); ok && b.Name() == "append" {
+					return true
+				}
+			}
+			return false
+		}
+		if !hasAppend(fn) {
+			for _, r := range w.MayBeNilReturns(fn) {
+				if len(r.Results) == 0 {
+					continue
+				}
+				for _, lf := range w.leaves(r.Results[0], r, false) {
+					v := throughCell(strip(lf.Val))
+					if ex, isEx := v.(*ssa.Extract); isEx {
+						v = ex.Tuple
+					}
+					if hc, isCall := v.(*ssa.Call); isCall {
+						if h := hc.Call.StaticCallee(); h != nil && w.InRepo(h) && h.Blocks != nil && hasAppend(h) {
+							pf, pfSite = h, hc
+						}
+					}
+				}
+			}
+		}
+		fromTool := func(v ssa.Value) bool {
+			ex := w.ExprIn(pf, v)
+			if pfSite == nil {
+				return strings.Contains(ex, "exec.Cmd).Output>")
+			}
+			// in the parser's own terms: a parameter, bound at the call in ListSlots to the tool's output
+			for i, a := range pfSite.Call.Args {
+				if strings.Contains(ex, "p"+itoa(i)) && strings.Contains(w.ExprIn(fn, a), "exec.Cmd).Output>") {
+					return true
+				}
+			}
+			return false
+		}
+		c.Saw(pf)
+		f := w.Facts(pf)
 		c.BoundsFns[fn.String()] = true
-		reportSites(c, "R4.bounds", w.BoundsObligations([]*ssa.Function{fn}, nil))
+		if pf != fn {
+			c.BoundsFns[pf.String()] = true
+			reportSites(c, "R4.bounds", w.BoundsObligations([]*ssa.Function{fn, pf}, nil))
+		} else {
+			reportSites(c, "R4.bounds", w.BoundsObligations([]*ssa.Function{fn}, nil))
+		}
 		nApp := 0
-		for _, call := range callsIn(fn) {
+		for _, call := range callsIn(pf) {
 			b, ok := call.Common().Value.(*ssa.Builtin)
 			if !ok || b.Name() != "append" {
 				continue
@@ -457,7 +508,7 @@ func runC13(c *Ctx) {
 			if ld, ok := line.(*ssa.UnOp); ok && ld.Op == token.MUL {
 				if ia, ok := ld.X.(*ssa.IndexAddr); ok && isForwardRangeIndex(ia.Index) {
 					if sp, ok := ia.X.(*ssa.Call); ok && calleeName(sp) == "strings.Split" {
-						if sep, ok := strConst(sp.Call.Args[1]); ok && sep == "\n" && strings.Contains(w.Expr(sp.Call.Args[0]), "exec.Cmd).Output>") {
+						if sep, ok := strConst(sp.Call.Args[1]); ok && sep == "\n" && fromTool(sp.Call.Args[0]) {
 							okLine = true
 						}
 					}
@@ -519,7 +570,7 @@ func runC13(c *Ctx) {
 			}
 			// ... and a line that passed both tests cannot bypass the append on its way back to the loop head
 			if extra == "" && header != nil {
-				for _, b := range fn.Blocks {
+				for _, b := range pf.Blocks {
 					ifi, ok := b.Instrs[len(b.Instrs)-1].(*ssa.If)
 					if !ok {
 						continue
